@@ -40,6 +40,10 @@ type DefaultMetricLogWriter struct {
 
 	timezoneOffsetSec int64
 	latestOpSec       int64
+	// curFileIndexed tells whether the current metric file already has an index
+	// entry; the first second written to a file always needs one, even when that
+	// second started in the previous file (or is the second the writer was created in).
+	curFileIndexed bool
 
 	curMetricFile    *os.File
 	curMetricIdxFile *os.File
@@ -73,7 +77,13 @@ func (d *DefaultMetricLogWriter) Write(ts uint64, items []*base.MetricItem) erro
 		// ignore
 		return nil
 	}
-	if timeSec > d.latestOpSec {
+	if timeSec > d.latestOpSec && d.isNewDay(d.latestOpSec, timeSec) {
+		// Roll first, so that the index entry of this second goes to the file that holds its items.
+		if err := d.rollToNextFile(ts); err != nil {
+			return errors.Wrap(err, "failed to roll the metric log")
+		}
+	}
+	if timeSec > d.latestOpSec || !d.curFileIndexed {
 		pos, err := util.FilePosition(d.curMetricFile)
 		if err != nil {
 			return errors.Wrap(err, "cannot get current pos of the metric file")
@@ -81,13 +91,8 @@ func (d *DefaultMetricLogWriter) Write(ts uint64, items []*base.MetricItem) erro
 		if err = d.writeIndex(timeSec, pos); err != nil {
 			return errors.Wrap(err, "cannot write metric idx file")
 		}
-		if d.isNewDay(d.latestOpSec, timeSec) {
-			if err = d.rollToNextFile(ts); err != nil {
-				return errors.Wrap(err, "failed to roll the metric log")
-			}
-		}
+		d.curFileIndexed = true
 	}
-	// Write and flush
 	if err := d.writeItemsAndFlush(items); err != nil {
 		return errors.Wrap(err, "failed to write and flush metric items")
 	}
@@ -258,6 +263,7 @@ func (d *DefaultMetricLogWriter) closeCurAndNewFile(filename string) error {
 
 	d.curMetricIdxFile = mif
 	d.idxOut = bufio.NewWriter(mif)
+	d.curFileIndexed = false
 
 	return nil
 }
